@@ -333,7 +333,7 @@ func Run(c *vk.Ctx) {
 	}
 	maxSrc, maxBase, maxFail, preempt := 3, 1, 2, 2
 	if c.Thorough() {
-		maxSrc, maxBase, maxFail, preempt = 4, 1, 3, 3
+		maxSrc, maxBase, maxFail, preempt = 4, 1, 2, 3
 	}
 	c.Note(fmt.Sprintf("small family: sources 1..%d, bases 0..%d, <=%d failures x 4 kinds (+all fail); every completion permutation with preemption bound 1, identity and reversed completion order with preemption bound %d at sync points; boundary family: n in {127,128,129,130,256,257,300}", maxSrc, maxBase, maxFail, preempt))
 	var idx int64
